@@ -328,17 +328,20 @@ def isForMeName : Mode → String
   | .m11 => "_is_for_me_mixed_11bits"
   | .m29 => "_is_for_me_mixed_29bits"
 
+def isForMeStage (a : AddrArgs) (m : Mode) (env : Env) : Env :=
+  if a.txOnly then env else env.set "self.is_for_me" (.meth (isForMeName m))
+
 /-- statement 16: `if not self._tx_only:` the if / elif chain on the mode doing `setattr(self, 'is_for_me', self._is_for_me_<mode>)`
     (the final `else: raise RuntimeError` is unreachable: the seven modes are covered) -/
 theorem stmt16 (hI : Inv a m env) :
-    execStmt (initMeths a) env (S 16) =
-      .ok (.next (if a.txOnly then env else env.set "self.is_for_me" (.meth (isForMeName m)))) := by
+    execStmt (initMeths a) env (S 16) = .ok (.next (isForMeStage a m env)) := by
   cases hI
   simp only [S, nthStmt, Src.Address_init]
   cases ht : a.txOnly
   · cases m <;>
-    simp [execStmt, execBlock, eval, evalArgs, *, modePV, modeName, isForMeName, evalBuiltin_setattr, initMeths_setattr]
-  · simp [execStmt, execBlock, eval, *]
+    simp [execStmt, execBlock, eval, evalArgs, *, modePV, modeName, isForMeName, evalBuiltin_setattr, initMeths_setattr,
+      isForMeStage]
+  · simp [execStmt, execBlock, eval, *, isForMeStage]
 
 /-- statement 17: the nested `def not_implemented_func_with_partial(*args, **kwargs): raise NotImplementedError(...)` -/
 theorem stmt17 : execStmt (initMeths a) env (S 17) = .ok (.next (env.set nipName nip)) := by
@@ -390,9 +393,6 @@ def env11 (a : AddrArgs) (m : Mode) : Env := idsStage a m ((env8 a m).set "self.
 /-- the environment after `self._tx_payload_prefix = bytes(); self._rx_prefix_size = 0` -/
 def env13 (a : AddrArgs) (m : Mode) : Env :=
   ((env11 a m).set "self._tx_payload_prefix" (.bytes [])).set "self._rx_prefix_size" (pint 0)
-
-def isForMeStage (a : AddrArgs) (m : Mode) (env : Env) : Env :=
-  if a.txOnly then env else env.set "self.is_for_me" (.meth (isForMeName m))
 
 /-- the constructed object (with the locals of the constructor still in the environment) -/
 def finalEnv (a : AddrArgs) (m : Mode) (h : Half) : Env :=
@@ -498,5 +498,89 @@ theorem afterValidate (hm : a.mode = some m) (hk : mkAddress a = .ok h) :
   rfl
 
 end chain
+
+/-! ## The constructed object -/
+
+section result
+variable (a : AddrArgs) (m : Mode) (h : Half)
+
+/-- **Construction, run**: when `mkAddress` builds `h`, the constructor returns `None` with `self` in the state `finalEnv`. -/
+theorem Address_init_run (hm : a.mode = some m) (hk : mkAddress a = .ok h) :
+    runFn (initMeths a) (initEnv a m) Src.Address_init = .ok (pnone, finalEnv a m h) := by
+  have e : execBlock (initMeths a) (initEnv a m) Src.Address_init = .ok (.next (finalEnv a m h)) := by
+    have := upToValidate a m
+    simp only [(mkAddress_ok hm hk).1, if_true] at this
+    exact this.trans (afterValidate a m h hm hk)
+  simp [runFn, e]
+
+/-- the five identifier / address-byte attributes, as the model object has them -/
+def idAttrs (h : Half) : List (String × PV) :=
+  [("self._txid", optPV h.txid), ("self._rxid", optPV h.rxid), ("self._target_address", optPV h.ta),
+   ("self._source_address", optPV h.sa), ("self._address_extension", optPV h.ae)]
+
+/-- the same five attributes, as the constructor stores them: the argument itself -/
+def rawIdAttrs (a : AddrArgs) : List (String × PV) :=
+  [("self._txid", .sc (.py a.txid)), ("self._rxid", .sc (.py a.rxid)), ("self._target_address", .sc (.py a.ta)),
+   ("self._source_address", .sc (.py a.sa)), ("self._address_extension", .sc (.py a.ae))]
+
+/-- all the other attributes of the constructed object -/
+def otherAttrs (h : Half) : List (String × PV) :=
+  [("self._addressing_mode", modePV h.mode), ("self._is_29bits", pbool h.mode.is29),
+   ("self._rx_only", pbool h.rxOnly), ("self._tx_only", pbool h.txOnly)]
+  ++ (if h.mode = .nf29 ∨ h.mode = .m29 then
+        [("self.physical_id", pint h.physId), ("self.functional_id", pint h.funcId)] else [])
+  ++ (if h.txOnly then
+        [("self._rx_prefix_size", pint 0),
+         ("self.get_rx_arbitration_id", nip), ("self.requires_rx_extension_byte", nip), ("self.get_rx_extension_byte", nip),
+         ("self.is_rx_29bits", nip), ("self.is_for_me", nip), ("self.get_rx_prefix_size", nip)]
+      else
+        [("self._rx_arbitration_id_physical", pint (h.rxId .physical)),
+         ("self._rx_arbitration_id_functional", pint (h.rxId .functional)),
+         ("self._rx_prefix_size", pint h.rxPrefixSize),
+         ("self.is_for_me", .meth (isForMeName h.mode))])
+  ++ (if h.rxOnly then
+        [("self._tx_payload_prefix", .bytes []),
+         ("self.get_tx_arbitration_id", nip), ("self.requires_tx_extension_byte", nip), ("self.get_tx_extension_byte", nip),
+         ("self.is_tx_29bits", nip), ("self.get_tx_payload_prefix", nip)]
+      else
+        [("self._tx_arbitration_id_physical", pint (h.txId .physical)),
+         ("self._tx_arbitration_id_functional", pint (h.txId .functional)),
+         ("self._tx_payload_prefix", .bytes h.txPrefix)])
+
+/-- the attributes of the object `Address(...)` builds, from the model object -/
+def expectedAttrs (h : Half) : List (String × PV) := idAttrs h ++ otherAttrs h
+
+/-- instance attributes the constructor does NOT create (the class-level methods stay visible / the attribute does not exist) -/
+def unsetAttrs (h : Half) : List String :=
+  (if h.mode = .nf29 ∨ h.mode = .m29 then [] else ["self.physical_id", "self.functional_id"])
+  ++ (if h.txOnly then ["self._rx_arbitration_id_physical", "self._rx_arbitration_id_functional"]
+      else ["self.get_rx_arbitration_id", "self.requires_rx_extension_byte", "self.get_rx_extension_byte", "self.is_rx_29bits",
+            "self.get_rx_prefix_size"])
+  ++ (if h.rxOnly then ["self._tx_arbitration_id_physical", "self._tx_arbitration_id_functional"]
+      else ["self.get_tx_arbitration_id", "self.requires_tx_extension_byte", "self.get_tx_extension_byte", "self.is_tx_29bits",
+            "self.get_tx_payload_prefix"])
+
+/-- the arguments do not shadow an attribute -/
+theorem initEnv_unset (k : String) (hk : k ∈ ["self.physical_id", "self.functional_id", "self._rx_arbitration_id_physical",
+    "self._rx_arbitration_id_functional", "self.get_rx_arbitration_id", "self.requires_rx_extension_byte",
+    "self.get_rx_extension_byte", "self.is_rx_29bits", "self.get_rx_prefix_size", "self._tx_arbitration_id_physical",
+    "self._tx_arbitration_id_functional", "self.get_tx_arbitration_id", "self.requires_tx_extension_byte",
+    "self.get_tx_extension_byte", "self.is_tx_29bits", "self.get_tx_payload_prefix"]) : initEnv a m k = none := by
+  simp only [List.mem_cons, List.not_mem_nil, or_false] at hk
+  rcases hk with h | h | h | h | h | h | h | h | h | h | h | h | h | h | h | h <;> subst h <;> rfl
+
+theorem finalEnv_attrs (hm : a.mode = some m) (hk : mkAddress a = .ok h) :
+    (∀ kv ∈ rawIdAttrs a ++ otherAttrs h, finalEnv a m h kv.1 = some kv.2) ∧ (∀ k ∈ unsetAttrs h, finalEnv a m h k = none) := by
+  obtain ⟨hv, hh⟩ := mkAddress_ok hm hk
+  subst hh
+  cases hr : a.rxOnly <;> cases ht : a.txOnly
+  · cases m <;> (constructor <;>
+      simp [rawIdAttrs, otherAttrs, unsetAttrs, finalEnv, isForMeStage, txStage, rxStage, env13, env11, idsStage, setIds, env8,
+        rxNip, txNip, nipName, nip, set_get, mkHalf, hr, ht, Mode.hasPrefix, Mode.is29, Half.rxPrefixSize, initEnv_unset])
+  · sorry
+  · sorry
+  · simp [validateAddr, hm, hr, ht] at hv
+
+end result
 
 end Isotp.PyAgree
